@@ -195,6 +195,9 @@ func ruleF1(c *Ctx) *RuleResult {
 	// Muxer.rotate*Inner pass their own parameters to every stream
 	for _, name := range []string{"rotateSegmentsInner", "rotatePartsInner", "createFirstSegment"} {
 		fn := c.Method("", "Muxer", name)
+		if fn == nil && strings.HasSuffix(name, "Inner") {
+			fn = c.muxerFanOut(strings.TrimSuffix(name, "Inner"))
+		}
 		if fn == nil {
 			r.undecided("Muxer.%s not found", name)
 			continue
@@ -272,6 +275,9 @@ func ruleF2(c *Ctx) *RuleResult {
 	// Muxer.rotateSegments / Inner forward force
 	for _, name := range []string{"rotateSegments", "rotateSegmentsInner"} {
 		fn := c.Method("", "Muxer", name)
+		if fn == nil && name == "rotateSegmentsInner" {
+			fn = c.muxerFanOut("rotateSegments")
+		}
 		if fn == nil {
 			continue
 		}
